@@ -130,14 +130,14 @@ def gen_jobs(ctx, quick):
     for i in range(12 * k):
         base.append(("twin", "twin%d" % i, gramgen.lr1_twin_grammar(rng)[1], None))
         base.append(("ctx", "ctx%d" % i, gramgen.ctx_nullable_grammar(rng)[1], None))
-    for i in range(25 * k):
+    for i in range((16 if quick else 300)):
         r = gramgen.nullable2_grammar(rng)
         if r:
             base.append(("nullable", "null%d" % i, r[1], None))
         r = gramgen.unary_nullable_grammar(rng)
         if r:
             base.append(("nullable", "unull%d" % i, r[1], None))
-    for i in range((70 if quick else 2500)):
+    for i in range((50 if quick else 2500)):
         big = i % 3 == 0
         r = gramgen.random_grammar(rng, max_nt=5 if big else 3, max_alts=3, max_rhs=3,
                                    terms=("'a'", "'b'", "'c'") if big else ("'a'", "'b'"),
@@ -149,13 +149,13 @@ def gen_jobs(ctx, quick):
             prods = [prods[0]] + list(reversed(prods[1:]))
             text = gramgen.gr_text(prods)
         base.append(("random", "rand%d" % i, text, None))
-    for i in range((40 if quick else 1200)):
+    for i in range((30 if quick else 1200)):
         r = gramgen.random_grammar(rng, max_nt=3, max_alts=3, max_rhs=3, terms=("'a'", "'b'", "'c'"),
                                    p_empty=rng.choice([0.0, 0.15]), p_nt=0.5)
         if r is None:
             continue
         base.append(("decorated", "deco%d" % i, decorate(rng, r[0], rng.choice(["rule", "alt", "mixed"])), None))
-    for i in range((30 if quick else 800)):
+    for i in range((24 if quick else 800)):
         t = term_meta_grammar(rng)
         if t:
             base.append(("termmeta", "tm%d" % i, t, None))
